@@ -25,7 +25,7 @@ func init() { core.Register(c12{}) }
 func (c12) ID() string    { return "C12" }
 func (c12) Level() string { return "fault_enumeration" }
 func (c12) Rule() string {
-	return "flip cases: small pristine databases built deterministically (variants: plain 1 file; rotated 3 files with overwrites, tombstones and a committed batch; unsealed batch tail; un-adopted finished merge so that hint file, marker and rewritten files are read by Open; 34 KiB variant with a 2-chunk record, thorough only); EVERY single-bit flip of EVERY byte of EVERY file (data, hint, marker) is applied to a fresh copy, then Open, full dump (ListKeys, Get of every key ever written, Fold), Close. damage cases: larger databases (200 KiB..1 MiB, multi-block records) with random 1..64-byte overwrites, truncation to every length of the last two blocks and random lengths elsewhere, a block replaced by garbage or zeros, bit flips in an older data file whose size is an exact multiple of 32 KiB, every bit of the length and type fields of seed-chosen chunk headers (block-filling chunks of multi-block records preferred), and live faults (overwrite; truncation under standard I/O) applied to the files of an OPEN database whose buffers were warmed by earlier reads, observed through Get/Fold on that handle; additionally, decided for the never-a-panic clause only: a block replaced by a copy of another block (intact chunks in the wrong place) and two files exchanged; the damaged file is also fed to the sequential reader directly. Oracle: a panic or process death is a violation; otherwise Open may fail, any Get/Fold may fail with an error other than key-not-found, or every key must map to its latest written value (deleted keys stay absent, no key that was never written appears); only when the damaged newest data file is byte for byte a possible torn-write image (truncation of that file, damage inside its last record, or a chunk of it whose header/declared length now reaches beyond the end of the file, which no reader can tell from the crash tail C03 requires recovery to accept) the mapping may instead be one of the prefix states S_j. Non-trivial: fault that hits a chunk header field or record header of a record that is live; distinct = (variant, file, byte, bit) resp. hash of the fault description"
+	return "flip cases: small pristine databases built deterministically (variants: plain 1 file; rotated 3 files with overwrites, tombstones and a committed batch; unsealed batch tail; un-adopted finished merge so that hint file, marker and rewritten files are read by Open; a merge over ~10 files in which uniformly sized live and dead records alternate, damaged in the marker only (a flipped bit of the boundary id yields a smaller, non-zero id); 34 KiB variant with a 2-chunk record, thorough only); EVERY single-bit flip of EVERY byte of EVERY file (data, hint, marker) is applied to a fresh copy, then Open, full dump (ListKeys, Get of every key ever written, Fold), Close. damage cases: larger databases (200 KiB..1 MiB, multi-block records) with random 1..64-byte overwrites, truncation to every length of the last two blocks and random lengths elsewhere, a block replaced by garbage or zeros, bit flips in an older data file whose size is an exact multiple of 32 KiB, every bit of the length and type fields of seed-chosen chunk headers (block-filling chunks of multi-block records preferred), and live faults (overwrite; truncation under standard I/O) applied to the files of an OPEN database whose buffers were warmed by earlier reads, observed through Get/Fold on that handle; additionally, decided for the never-a-panic clause only: a block replaced by a copy of another block (intact chunks in the wrong place) and two files exchanged; the damaged file is also fed to the sequential reader directly. Oracle: a panic or process death is a violation; otherwise Open may fail, any Get/Fold may fail with an error other than key-not-found, or every key must map to its latest written value (deleted keys stay absent, no key that was never written appears); only when the damaged newest data file is byte for byte a possible torn-write image (truncation of that file, damage inside its last record, or a chunk of it whose header/declared length now reaches beyond the end of the file, which no reader can tell from the crash tail C03 requires recovery to accept) the mapping may instead be one of the prefix states S_j. Non-trivial: fault that hits a chunk header field or record header of a record that is live; distinct = (variant, file, byte, bit) resp. hash of the fault description"
 }
 func (c12) Assumptions() []string {
 	return []string{"torn-tail window as stated in the rule (narrowest oracle that does not contradict C03)", "CRC-32 collisions are not constructed"}
@@ -49,7 +49,7 @@ func (c12) Cases(tier string, seed uint64) []core.Case {
 	variants := []struct {
 		name  string
 		parts int
-	}{{"plain", 6}, {"rotated", 16}, {"unsealed", 6}, {"merge", 24}}
+	}{{"plain", 6}, {"rotated", 16}, {"unsealed", 6}, {"merge", 24}, {"merge-marker", 11}}
 	if tier == "thorough" {
 		variants = append(variants, struct {
 			name  string
@@ -98,7 +98,7 @@ func buildPristine(w *core.Worker, variant string, seed uint64, ioType byte, res
 	r := core.NewRng(seed)
 	cfg := core.Config{IndexType: 3, ShardNum: 4, FileIO: ioType, DataFileSize: 1 << 20}
 	switch variant {
-	case "rotated", "merge", "rotated2", "merge2":
+	case "rotated", "merge", "rotated2", "merge2", "merge-marker":
 		cfg.DataFileSize = 700
 	}
 	tmp := core.Result{}
@@ -136,8 +136,19 @@ func buildPristine(w *core.Worker, variant string, seed uint64, ioType byte, res
 		do(put([]byte("big"), 33000))
 		do(put([]byte("a"), 30))
 	}
+	if variant == "merge-marker" {
+		// uniformly sized records over many files, every key written twice: the merge boundary
+		// is a file id with several bits (so that one flipped bit yields a smaller non-zero id)
+		// and the rewritten records sit at offsets where the original files hold records too
+		// live records (written once) alternate with garbage (three keys overwritten again and
+		// again), so every input file holds live data and the output needs about half the files
+		for i := 0; i < 16; i++ {
+			do(put([]byte(fmt.Sprintf("u%02d", i)), 100))
+			do(put([]byte(fmt.Sprintf("g%02d", i%3)), 100))
+		}
+	}
 	do(put([]byte("e"), 17)) // make sure something is live at the end
-	if variant == "merge" || variant == "merge2" {
+	if variant == "merge" || variant == "merge2" || variant == "merge-marker" {
 		var merr error
 		core.Safe(func() { merr = s.DB.Merge() })
 		if merr != nil {
@@ -174,6 +185,9 @@ func buildPristine(w *core.Worker, variant string, seed uint64, ioType byte, res
 		for _, e := range ents {
 			if e.Name() == ".lock" {
 				continue
+			}
+			if variant == "merge-marker" && !strings.HasSuffix(e.Name(), ".merge-finished") {
+				continue // this variant damages the marker only
 			}
 			if st, err := os.Stat(filepath.Join(root, sub, e.Name())); err == nil && st.Size() > 0 {
 				p.files = append(p.files, filepath.Join(sub, e.Name()))
@@ -366,10 +380,38 @@ func c12Reader(path string, ioType byte, res *core.Result) string {
 
 func (c12) Run(c core.Case, w *core.Worker) core.Result {
 	cc := c.Data.(c12Case)
-	res := core.Result{}
 	if cc.Kind == "damage" {
 		return c12Damage(c, cc, w)
 	}
+	if cc.Variant != "merge-marker" {
+		return c12Flip(c, cc, w)
+	}
+	// Merge rewrites its input files in Go map order, so which rewritten file receives which
+	// record differs from build to build: the same marker byte is damaged on 6 fresh builds
+	var res core.Result
+	for rep := 0; rep < 6 && res.Verdict != "violated"; rep++ {
+		c2 := c
+		c2.Seed = core.Mix(c.Seed, uint64(rep))
+		r := c12Flip(c2, cc, w)
+		w.Clean()
+		if rep == 0 {
+			res = r
+			continue
+		}
+		for k, v := range r.Counters {
+			res.Add(k, v)
+		}
+		res.Nontrivial = res.Nontrivial || r.Nontrivial
+		if r.Verdict == "violated" {
+			res.Verdict, res.Violations = r.Verdict, append(res.Violations, r.Violations...)
+		}
+	}
+	res.Add("marker_builds", 6)
+	return res
+}
+
+func c12Flip(c core.Case, cc c12Case, w *core.Worker) core.Result {
+	res := core.Result{}
 	p, msg := buildPristine(w, cc.Variant, c.Seed, cc.IO, &res)
 	if msg != "" {
 		res.Violate("harness: "+msg, map[string]string{"class": "harness"}, nil)
